@@ -127,9 +127,16 @@ def check(run):
     if run.tier == "thorough" or any(r.status != "ok" for r in run.reports) or run.undecided:
         shapes = [(2, 0, 1, 1), (3, 1, 2, 2), (2, 2, 0, 3), (1, 0, 1, 2), (3, 0, 2, 4), (4, 1, 1, 2)] if run.tier == "thorough" else [(3, 1, 2, 2), (2, 0, 1, 3)]
         native_sweep(run, shapes)
+    from checks.ekf_common import stateful_sweep
+
+    stateful_sweep(run, "C03", ("call",), run.tier == "thorough" or any(r.status != "ok" for r in run.reports) or bool(run.undecided) or bool(run.findings))
 
 
 def replay_file(payload):
+    if payload["inputs"].get("sequence"):
+        from checks.ekf_common import replay_sequence
+
+        return replay_sequence(payload["inputs"])
     shape = payload["inputs"]["shape"]
     problems, sc = native_jacobians(*shape, seed=payload["inputs"].get("seed", 0))
     print(f"replay C03 shape {shape}:", problems[:4] if problems else "all Jacobian entries equal the exact partial derivatives")
